@@ -82,9 +82,33 @@ fn ascii(ctor: &str, text: String) -> String {
     }
 }
 
+/// req <method> <name> <value> ... : the field list as sent by a client, through read_http_request;
+/// prints the header list the handler would see (in iteration order), or the error name
+fn req(toks: &[&str]) -> String {
+    use fixed_buffer::FixedBuf;
+    use servlin::internal::read_http_request;
+    let mut bytes = bytes_of_tok(toks[0]);
+    bytes.extend_from_slice(b" / HTTP/1.1\r\n");
+    for nv in toks[1..].chunks(2) {
+        bytes.extend_from_slice(&bytes_of_tok(nv[0]));
+        bytes.extend_from_slice(b": ");
+        bytes.extend_from_slice(&bytes_of_tok(nv[1]));
+        bytes.extend_from_slice(b"\r\n");
+    }
+    bytes.extend_from_slice(b"\r\n");
+    let mut buf: FixedBuf<8192> = FixedBuf::new();
+    let reader = futures_lite::io::Cursor::new(bytes);
+    let addr = std::net::SocketAddr::from(([127, 0, 0, 1], 1));
+    match futures_lite::future::block_on(read_http_request(addr, &mut buf, reader)) {
+        Ok(r) => format!("ok {}", pr_state(&r.headers)),
+        Err(e) => format!("err {}", format!("{e:?}").split(['(', ' ']).next().unwrap()),
+    }
+}
+
 fn main() {
     run_lines(|toks| match toks[0] {
         "ops" => ops(&toks[1..]),
+        "req" => req(&toks[1..]),
         "ascii" => ascii(toks[1], string_of_scalars_tok(toks[2])),
         _ => "?".to_string(),
     });
